@@ -3,13 +3,12 @@
    Yaml/FmtProofs.v.  Model: Yaml/Fmt.v (kyaml/kio/filters/fmtr.go, yaml/order.go, yaml/compatibility.go).
 
    Reading guide
-     fmt_node nonstr srt kind api s p n   formatter.fmtNode on node n at path p with schema s, for the
+     fmt_node nonstr hastype srt kind api s p n   formatter.fmtNode on node n at path p with schema s, for the
                                           document's kind / apiVersion; [srt] is sort.Sort, [isort] the
-                                          stable insertion sort Go runs for <= 12 elements
+                                          stable sort (what sort.Stable computes)
      S1 srt      "returns a sorted permutation and leaves a sorted input unchanged" (FmtSort.S1)
-     keyed_ok    no sequence is a direct element of a keyed whitelisted list (.spec.template.spec.containers)
      wf_keys     every mapping has pairwise distinct keys *)
-From KV Require Import Yaml.Fmt Yaml.FmtSort Yaml.FmtTablesRef Yaml.FmtProofs.
+From KV Require Import Yaml.Fmt Yaml.FmtSort Yaml.FmtTablesRef Yaml.Resolve11 Yaml.FmtProofs.
 From Coq Require Import Permutation.
 
 (* ---- generated tables ---- *)
@@ -80,68 +79,63 @@ Print Assumptions C20_sort_unique.
    keys and every whitelisted list has distinct sort keys; this is the domain on which the
    correspondence compares the implementation (pdqsort) with the model (insertion sort) beyond 12
    entries *)
-Theorem C20_sort_independent : forall nonstr srt srt' kind api, S1 srt -> S1 srt' -> forall n s p,
+Theorem C20_sort_independent : forall nonstr hastype srt srt' kind api, S1 srt -> S1 srt' -> forall n s p,
   distinct_sortkeys kind api p n = true ->
-  fmt_node nonstr srt kind api s p n = fmt_node nonstr srt' kind api s p n.
+  fmt_node nonstr hastype srt kind api s p n = fmt_node nonstr hastype srt' kind api s p n.
 Proof. exact fmt_sort_independent. Qed.
 Print Assumptions C20_sort_independent.
 
 (* ---- idempotence ----
-   Full statement (all nodes):  fmt_node .. n = Ok n' -> fmt_node .. n' = Ok n'.
-   It is FALSE for the code as written: see C20_idempotent_refuted (a list nested in the keyed
-   whitelisted list; no duplicate keys involved) and C20_idempotent_any_sort_refuted (duplicate sort
-   field + a sort that is not stable, which sort.Sort is beyond 12 elements).  What holds: *)
-
-(* with the stable sort: all nodes — duplicate keys and equal sort keys included — except that no
-   sequence may sit directly in a keyed whitelisted list *)
-Theorem C20_idempotent_partial : forall nonstr kind api n s p n',
-  keyed_ok kind api p n = true ->
-  fmt_node nonstr isort kind api s p n = Ok n' -> fmt_node nonstr isort kind api s p n' = Ok n'.
+   Full statement, all nodes (duplicate keys, equal or missing sort keys, nested lists, aliases included),
+   all schemas and paths: formatting a formatted node changes nothing.  [isort] is the stable sort —
+   sort.Stable since the repair "formatter sorts ... with sort.Stable"; only mapping elements carry a
+   sort field since the repair "formatter reads the sort field ... only from mapping elements".
+   Before the two repairs this was refuted (a list nested in `containers`; an element with the sort field
+   twice under the non-stable sort.Sort): the former witnesses are the regression Examples
+   wit_nested_seq_now_idempotent, wit_dup_sortfield_now_idempotent, unstable_sort_breaks_idempotence. *)
+Theorem C20_idempotent : forall nonstr hastype kind api n s p n',
+  fmt_node nonstr hastype isort kind api s p n = Ok n' -> fmt_node nonstr hastype isort kind api s p n' = Ok n'.
 Proof. exact fmt_idem_isort. Qed.
-Print Assumptions C20_idempotent_partial.
-
-(* with any sort meeting (S1): additionally the keys of every mapping must be distinct *)
-Theorem C20_idempotent_any_sort_partial : forall nonstr kind api srt, S1 srt -> forall n s p n',
-  keyed_ok kind api p n = true -> wf_keys n = true ->
-  fmt_node nonstr srt kind api s p n = Ok n' -> fmt_node nonstr srt kind api s p n' = Ok n'.
-Proof. exact fmt_idem_S1. Qed.
-Print Assumptions C20_idempotent_any_sort_partial.
+Print Assumptions C20_idempotent.
 
 (* the same for FormatFilter.Filter on a whole stream (annotation opt-out, kind / apiVersion lookup
    included): filtering the filtered stream returns it unchanged *)
-Theorem C20_stream_idempotent_partial : forall nonstr docs outs,
-  Forall (fun d => doc_keyed_ok (fst d) = true) docs ->
-  filter_stream nonstr isort docs = Ok outs ->
-  filter_stream nonstr isort (combine outs (map snd docs)) = Ok outs.
+Theorem C20_stream_idempotent : forall nonstr hastype docs outs,
+  filter_stream nonstr hastype isort docs = Ok outs ->
+  filter_stream nonstr hastype isort (combine outs (map snd docs)) = Ok outs.
 Proof. exact filter_stream_idem_isort. Qed.
-Print Assumptions C20_stream_idempotent_partial.
+Print Assumptions C20_stream_idempotent.
 
-Theorem C20_stream_idempotent_any_sort_partial : forall nonstr srt docs outs, S1 srt ->
-  Forall (fun d => wf_keys (fst d) = true /\ doc_keyed_ok (fst d) = true) docs ->
-  filter_stream nonstr srt docs = Ok outs ->
-  filter_stream nonstr srt (combine outs (map snd docs)) = Ok outs.
+(* robustness: with ANY sort meeting (S1), stable or not, idempotence holds for documents whose
+   mappings have distinct keys *)
+Theorem C20_idempotent_any_sort : forall nonstr hastype kind api srt, S1 srt -> forall n s p n',
+  wf_keys n = true ->
+  fmt_node nonstr hastype srt kind api s p n = Ok n' -> fmt_node nonstr hastype srt kind api s p n' = Ok n'.
+Proof. exact fmt_idem_S1. Qed.
+Print Assumptions C20_idempotent_any_sort.
+
+Theorem C20_stream_idempotent_any_sort : forall nonstr hastype srt docs outs, S1 srt ->
+  Forall (fun d => wf_keys (fst d) = true) docs ->
+  filter_stream nonstr hastype srt docs = Ok outs ->
+  filter_stream nonstr hastype srt (combine outs (map snd docs)) = Ok outs.
 Proof. exact filter_stream_idem_S1. Qed.
-Print Assumptions C20_stream_idempotent_any_sort_partial.
+Print Assumptions C20_stream_idempotent_any_sort.
 
-Theorem C20_idempotent_refuted : forall nonstr, exists n n1 n2,
-  wf_keys n = true /\
-  filter_doc nonstr isort SNil n = Ok n1 /\ filter_doc nonstr isort SNil n1 = Ok n2 /\ n1 <> n2.
-Proof. exact fmt_idem_refuted. Qed.
-Print Assumptions C20_idempotent_refuted.
-
-Theorem C20_idempotent_any_sort_refuted : forall nonstr, exists srt, S1 srt /\ exists n n1 n2,
-  keyed_ok "Deployment" "apps/v1" "" n = true /\
-  filter_doc nonstr srt SNil n = Ok n1 /\ filter_doc nonstr srt SNil n1 = Ok n2 /\ n1 <> n2.
-Proof. exact fmt_idem_S1_refuted. Qed.
-Print Assumptions C20_idempotent_any_sort_refuted.
+(* ---- canonical order ----
+   In a formatted node every mapping is in field order (Less, built on the generated order table) and
+   every whitelisted list is ordered by the sort keys of its elements — all nodes, all schemas. *)
+Theorem C20_output_canonical_order : forall nonstr hastype kind api n s p n',
+  fmt_node nonstr hastype isort kind api s p n = Ok n' -> canon_sorted kind api p n' = true.
+Proof. exact fmt_output_sorted. Qed.
+Print Assumptions C20_output_canonical_order.
 
 (* ---- no crash ----
    The formatter never panics: all nodes, all schemas and paths, any sort function.
    (Before /repo commit d64b8e2 this was refuted — sortedSeqContents.Less indexed Content[a+1] of an
    odd-length sequence element of a keyed whitelisted list; the guard `a+1 < len(Content)` removed the
    only panic site of the model.) *)
-Theorem C20_no_panic : forall nonstr kind api srt n s p,
-  exists n', fmt_node nonstr srt kind api s p n = Ok n'.
+Theorem C20_no_panic : forall nonstr hastype kind api srt n s p,
+  exists n', fmt_node nonstr hastype srt kind api s p n = Ok n'.
 Proof. exact fmt_no_panic. Qed.
 Print Assumptions C20_no_panic.
 
@@ -150,84 +144,138 @@ Print Assumptions C20_no_panic.
 (* without a schema the output is the input with the pairs of each mapping permuted (a key keeps its
    own value node), the elements of the whitelisted lists permuted, all other lists in order, every
    scalar untouched; for all nodes and any sort meeting (S1) *)
-Theorem C20_value_preserved : forall nonstr srt kind api, S1 srt -> forall n p n',
-  fmt_node nonstr srt kind api SNil p n = Ok n' -> shuffled kind api eq p n n'.
+Theorem C20_value_preserved : forall nonstr hastype srt kind api, S1 srt -> forall n p n',
+  fmt_node nonstr hastype srt kind api SNil p n = Ok n' -> shuffled kind api eq p n n'.
 Proof. exact fmt_value_preserved_noschema. Qed.
 Print Assumptions C20_value_preserved.
 
 (* with a schema the same holds except that Style and Tag of scalars may change (comments, anchor and
    text of the scalar stay) *)
-Theorem C20_value_preserved_schema : forall nonstr srt kind api, S1 srt -> forall n s p n',
-  fmt_node nonstr srt kind api s p n = Ok n' -> shuffled kind api hdr_sim p n n'.
+Theorem C20_value_preserved_schema : forall nonstr hastype srt kind api, S1 srt -> forall n s p n',
+  fmt_node nonstr hastype srt kind api s p n = Ok n' -> shuffled kind api hdr_sim p n n'.
 Proof. exact fmt_value_preserved. Qed.
 Print Assumptions C20_value_preserved_schema.
 
 (* full statement "a document a YAML parser accepts is formatted into one it accepts" is FALSE:
    fmtNode moves nodes without regard to anchors (finding reparse/alias-before-anchor) *)
-Theorem C20_anchor_order_refuted : forall nonstr, exists n n',
+Theorem C20_anchor_order_refuted : forall nonstr hastype, exists n n',
   wf_keys n = true /\ anchors_ok n = true /\
-  filter_doc nonstr isort SNil n = Ok n' /\ anchors_ok n' = false.
+  filter_doc nonstr hastype isort SNil n = Ok n' /\ anchors_ok n' = false.
 Proof. exact fmt_anchor_order_refuted. Qed.
 Print Assumptions C20_anchor_order_refuted.
 
+(* the alias-free fragment: a document without alias nodes is formatted into a document without alias
+   nodes, in which therefore no alias precedes its anchor (the only way the formatter can make the
+   reparse `parse (emit (fmt x))` fail through anchors is excluded); any (S1) sort *)
+Theorem C20_alias_free_anchors_ok : forall nonstr hastype srt kind api, S1 srt -> forall n s p n',
+  alias_free n = true -> fmt_node nonstr hastype srt kind api s p n = Ok n' ->
+  alias_free n' = true /\ anchors_ok n' = true.
+Proof. exact fmt_alias_free. Qed.
+Print Assumptions C20_alias_free_anchors_ok.
+
 (* the head / line / foot comments of all nodes: same multiset before and after *)
-Theorem C20_comments_preserved : forall nonstr srt kind api, S1 srt -> forall n s p n',
-  fmt_node nonstr srt kind api s p n = Ok n' -> Permutation (comments n') (comments n).
+Theorem C20_comments_preserved : forall nonstr hastype srt kind api, S1 srt -> forall n s p n',
+  fmt_node nonstr hastype srt kind api s p n = Ok n' -> Permutation (comments n') (comments n).
 Proof. exact fmt_comments. Qed.
 Print Assumptions C20_comments_preserved.
 
 (* two documents that differ only in the order of the fields of their mappings format to the same
    node, when keys are unique; any sort meeting (S1) *)
-Theorem C20_canonical : forall nonstr srt kind api, S1 srt -> forall n1 n2 s p a b,
+Theorem C20_canonical : forall nonstr hastype srt kind api, S1 srt -> forall n1 n2 s p a b,
   mperm n1 n2 -> wf_keys n1 = true ->
-  fmt_node nonstr srt kind api s p n1 = Ok a -> fmt_node nonstr srt kind api s p n2 = Ok b -> a = b.
+  fmt_node nonstr hastype srt kind api s p n1 = Ok a -> fmt_node nonstr hastype srt kind api s p n2 = Ok b -> a = b.
 Proof. exact fmt_canonical. Qed.
 Print Assumptions C20_canonical.
 
-(* ---- schema-aware quoting (FormatNonStringStyle); nonstr = yaml.IsValueNonString ---- *)
-Theorem C20_schema_quote : forall nonstr (h : hdr) (v : string),
-  (forall types format, nonstr v = false -> fmt_nonstring nonstr types format h v = h) /\
+(* ---- schema-aware quoting (FormatNonStringStyle) ----
+   nonstr = yaml.IsValueNonString; hastype v t = "v, read as an unquoted YAML 1.1 scalar, is of the
+   OpenAPI type t" (valueHasType).  Before the repair of schema/mismatched-scalar-retagged the tag was
+   set from the schema type alone (`replicas: true` became `!!int true`): regression Example
+   wit_mistyped_scalar_untouched. *)
+Theorem C20_schema_quote : forall nonstr hastype (h : hdr) (v : string),
+  (* text YAML 1.1 reads as a string: untouched *)
+  (forall types format, nonstr v = false -> fmt_nonstring nonstr hastype types format h v = h) /\
+  (* string-typed position: quoted, !!str *)
   (forall format, nonstr v = true -> String.eqb format "int-or-string" = false ->
      String.eqb (h_tag h) node_tag_null = false ->
-     let h' := fmt_nonstring nonstr ["string"] format h v in
-     style_quoted (h_style h') = true /\ h_tag h' = "!!str") /\
-  (forall t format tg, nonstr v = true ->
-     (t = "boolean" \/ t = "integer" \/ t = "number") -> assoc_str t type_to_tag = Some tg ->
-     String.eqb (h_tag h) node_tag_null = false ->
-     let h' := fmt_nonstring nonstr [t] format h v in
-     style_quoted (h_style h') = false /\ h_tag h' = tg) /\
+     style_quoted (h_style (fmt_nonstring nonstr hastype ["string"] format h v)) = true /\
+     h_tag (fmt_nonstring nonstr hastype ["string"] format h v) = "!!str") /\
+  (* boolean / integer / number position, value of that type: unquoted, tagged with the type *)
+  (forall t format tg, nonstr v = true -> is_num_type t -> hastype v t = true ->
+     assoc_str t type_to_tag = Some tg -> String.eqb (h_tag h) node_tag_null = false ->
+     style_quoted (h_style (fmt_nonstring nonstr hastype [t] format h v)) = false /\
+     h_tag (fmt_nonstring nonstr hastype [t] format h v) = tg) /\
+  (* ... value of another type: left exactly as written *)
+  (forall t format, is_num_type t -> hastype v t = false ->
+     fmt_nonstring nonstr hastype [t] format h v = h) /\
+  (* a null stays an unquoted null *)
   (forall t format, nonstr v = true -> String.eqb (h_tag h) node_tag_null = true ->
-     (t = "string" /\ String.eqb format "int-or-string" = false \/ t = "boolean" \/ t = "integer" \/ t = "number") ->
-     let h' := fmt_nonstring nonstr [t] format h v in
-     h_style h' = 0%N /\ h_tag h' = h_tag h) /\
+     (t = "string" /\ String.eqb format "int-or-string" = false \/ is_num_type t /\ hastype v t = true) ->
+     h_style (fmt_nonstring nonstr hastype [t] format h v) = 0%N /\
+     h_tag (fmt_nonstring nonstr hastype [t] format h v) = h_tag h) /\
+  (* a string stays a string at a string-typed position *)
   (forall format, style_quoted (h_style h) = true \/ nonstr v = false ->
      String.eqb (h_tag h) node_tag_null = false ->
-     let h' := fmt_nonstring nonstr ["string"] format h v in
-     style_quoted (h_style h') = true \/ nonstr v = false).
-Proof. exact schema_quote. Qed.
+     style_quoted (h_style (fmt_nonstring nonstr hastype ["string"] format h v)) = true \/ nonstr v = false).
+Proof.
+  exact (fun nonstr hastype h v =>
+    conj (sq_untouched nonstr hastype h v)
+   (conj (sq_string nonstr hastype h v)
+   (conj (sq_number nonstr hastype h v)
+   (conj (sq_mistyped nonstr hastype h v)
+   (conj (sq_null nonstr hastype h v) (sq_string_stays nonstr hastype h v)))))).
+Qed.
 Print Assumptions C20_schema_quote.
 
-(* the tag is set from the schema type alone; full statement "the tag afterwards agrees with what the
-   text resolves to" is FALSE: `replicas: true` becomes `!!int true` (finding schema/mismatched-scalar-retagged) *)
-Theorem C20_schema_retag_refuted :
-  exists (nonstr : string -> bool) h v,
-    nonstr v = true /\ v = "true" /\ h_tag h = "!!bool" /\
-    h_tag (fmt_nonstring nonstr ["integer"] "" h v) = "!!int".
-Proof. exact schema_retag_refuted. Qed.
-Print Assumptions C20_schema_retag_refuted.
+(* the tag after formatting is the tag before, or the YAML tag of an OpenAPI type the schema names and
+   the value really has (or "string") — the formatter cannot produce `!!int true` any more *)
+Theorem C20_schema_tag_sound : forall nonstr hastype (h : hdr) (v : string) types format,
+  h_tag (fmt_nonstring nonstr hastype types format h v) = h_tag h \/
+  (exists t, types = [t] /\
+     assoc_str t type_to_tag = Some (h_tag (fmt_nonstring nonstr hastype types format h v)) /\
+     (t = "string" \/ hastype v t = true)).
+Proof. exact sq_tag_sound. Qed.
+Print Assumptions C20_schema_tag_sound.
+
+(* the same rules with the YAML 1.1 resolution INSIDE the model: on the fragment of texts that are
+   certainly one plain scalar (Yaml/Resolve11.v: word table, ParseInt / ParseFloat syntax, tied to
+   go-yaml v2 by the correspondence) the answers of IsValueNonString / valueHasType are computed, the
+   oracles o1 / o2 only serve texts outside the fragment *)
+Theorem C20_schema_quote_resolved : forall o1 o2 (h : hdr) (v : string) (r : rtag),
+  resolve11 v = Some r ->
+  let fns := fmt_nonstring (nonstr_m o1) (hastype_m o2) in
+  (* a text YAML 1.1 resolves to a string is never touched, whatever the schema says *)
+  (forall types format, r = RStr -> fns types format h v = h) /\
+  (* a boolean / number / null text at a string-typed position: quoted, !!str *)
+  (forall format, r <> RStr -> String.eqb format "int-or-string" = false ->
+     String.eqb (h_tag h) node_tag_null = false ->
+     style_quoted (h_style (fns ["string"] format h v)) = true /\ h_tag (fns ["string"] format h v) = "!!str") /\
+  (* at a boolean / integer / number position: unquoted + tagged when the text has that type ... *)
+  (forall t format tg, is_num_type t -> rtag_has_type r t = true -> assoc_str t type_to_tag = Some tg ->
+     String.eqb (h_tag h) node_tag_null = false ->
+     style_quoted (h_style (fns [t] format h v)) = false /\ h_tag (fns [t] format h v) = tg) /\
+  (* ... and left exactly as written otherwise *)
+  (forall t format, is_num_type t -> rtag_has_type r t = false -> fns [t] format h v = h).
+Proof.
+  exact (fun o1 o2 h v r HR =>
+    conj (sqr_string_untouched o1 o2 h v r HR)
+   (conj (sqr_quoted o1 o2 h v r HR)
+   (conj (sqr_typed o1 o2 h v r HR) (sqr_mistyped o1 o2 h v r HR)))).
+Qed.
+Print Assumptions C20_schema_quote_resolved.
 
 (* ---- documents the filter leaves alone ---- *)
-Theorem C20_optout : forall nonstr srt s n v,
+Theorem C20_optout : forall nonstr hastype srt s n v,
   lookup_fields ["metadata"; "annotations"; fmt_annotation] n = Ok (Some v) ->
   cvalue v = fmt_strategy_none ->
-  filter_doc nonstr srt s n = Ok n.
+  filter_doc nonstr hastype srt s n = Ok n.
 Proof. exact filter_doc_optout. Qed.
 Print Assumptions C20_optout.
 
-Theorem C20_untyped_untouched : forall nonstr srt s n,
+Theorem C20_untyped_untouched : forall nonstr hastype srt s n,
   get_strategy n = Ok StStandard ->
   get_field "kind" n = Ok None \/
     (exists k, get_field "kind" n = Ok (Some k)) /\ get_field "apiVersion" n = Ok None ->
-  filter_doc nonstr srt s n = Ok n.
+  filter_doc nonstr hastype srt s n = Ok n.
 Proof. exact filter_doc_untyped. Qed.
 Print Assumptions C20_untyped_untouched.
